@@ -164,7 +164,8 @@ class AClassSource(SourceBase):
 
     @property
     def released(self):
-        return self.closed or self.exhausted or self.failed
+        # a class-based iterator that raised is NOT thereby finished: it still has to be closed
+        return self.closed or self.exhausted
 
     obj = property(lambda self: self)
 
